@@ -276,10 +276,19 @@ def _r3(ctx):
         if not upd:
             ctx.undecided("C02-R3", fn, rel, q, "cursor update", "not found")
             continue
-        s = src(upd[0])
-        ok = ("frame_slice.stop" in s) or ("frame_stop" in s)
-        ctx.decide(ok, "C02-R3", upd[0], rel, q, "cursor := end of the slice consumed", s,
-                   "the cursor update `%s` is not tied to the stop of the slice that was read" % s)
+        from .c18 import read_cursor_update, is_clamped_advance, fmt as _fmt
+        new, site = read_cursor_update(fn)
+        s = src(site if site is not None else upd[0])
+        if new is None:
+            v_ = site.value if isinstance(site, ast.AugAssign) else None
+            if v_ is not None and ((isinstance(v_, ast.Call) and call_name(v_) == "len") or src(v_).endswith(".shape[0]")):
+                ctx.violated("C02-R3", upd[0], rel, q, "cursor := end of the window read",
+                             "the cursor advances by `%s`, the number of frames *returned*; read(stride=s) consumes s times as many, so the next chunk starts inside the span already read" % src(v_))
+            else:
+                ctx.undecided("C02-R3", upd[0], rel, q, "cursor := end of the window read", "cannot evaluate `%s`" % s)
+            continue
+        ctx.decide(is_clamped_advance(new), "C02-R3", upd[0], rel, q, "cursor := end of the window read = min(position + n_frames, length)", "= %s" % _fmt(new),
+                   "after a read the cursor is %s (from `%s`), not the end min(position + n_frames, length) of the window that was read: the next chunk does not start where this one ended" % (_fmt(new), s))
     rel, cls = F.rel_cls("dtr")
     fn = F.method(ctx, "dtr", "read")
     q = cls + ".read"
